@@ -230,11 +230,15 @@ async def _kill_case(kind, how, workdir, tok):
     sched = local.Scheduler(workdir, 1)
     script = KILL_SCRIPTS[kind].format(tok=tok)
     tid = await sched.enqueue_task(name="k", script=script, working_dir=workdir, time_limit=0.4 if how == "timeout" else None, deps=[])
+    # a dependent of the task that is going to be cancelled / killed at its time limit: it must never run (C11)
+    marker = os.path.join(workdir, "dependent-ran")
+    dep = await sched.enqueue_task(name="d", script=f"touch {marker}", working_dir=workdir, time_limit=None, deps=[tid])
     await _settle(lambda: bool(_scan_proc(tok)), timeout=3.0)
     started = _scan_proc(tok)
     if how == "cancel":
         await sched.cancel_task(tid)
     await _settle(lambda: sched.tasks[tid].done(), timeout=14.0, quiet=0.1)
+    await _settle(lambda: sched.tasks[dep].done(), timeout=5.0, quiet=0.1)
     await asyncio.sleep(0.3)
     left = _scan_proc(tok)
     state = sched.task_states[tid].name
@@ -243,7 +247,7 @@ async def _kill_case(kind, how, workdir, tok):
             os.kill(pid, 9)
         except OSError:
             pass
-    return dict(started=len(started), left=left, state=state, done=sched.tasks[tid].done())
+    return dict(started=len(started), left=left, state=state, done=sched.tasks[tid].done(), dep_ran=os.path.exists(marker), dep_state=sched.task_states[dep].name, dep_done=sched.tasks[dep].done())
 
 
 def kill_batch(acc, batch, prop=None):
@@ -259,6 +263,14 @@ def kill_batch(acc, batch, prop=None):
         case = dict(kind="real-kill", script=kind, how=how, n=n)
         want_state = "CANCELLED" if how == "cancel" else "KILLED"
         ok = obs["started"] > 0 and not obs["left"] and obs["state"] == want_state and obs["done"]
+        dep_ok = not obs["dep_ran"] and obs["dep_done"] and obs["dep_state"] in (("CANCELLED",) if how == "cancel" else ("FAILED", "KILLED"))
+        if prop == "C11":
+            ok = True  # judged by C13
+        else:
+            dep_ok = True  # judged by C11
+        if not dep_ok:
+            acc.violation(sig=dict(what="the dependent of a cancelled / timed-out task was started or did not end in the matching non-completed state", tier="real", how=how),
+                          case=case, observed=obs, msg=f"script {KILL_SCRIPTS[kind]!r}, {how}: dependent ran={obs['dep_ran']} state={obs['dep_state']} (task itself {obs['state']})")
         acc.case(key=json.dumps(case), outcome=f"kill {kind}/{how} left={len(obs['left'])} state={obs['state']}", sample=case)
         acc.extra["real_processes"] += 1
         if not ok:
